@@ -19,6 +19,7 @@ package operator
 
 import (
 	"fmt"
+	"strconv"
 
 	"github.com/lindb/roaring"
 
@@ -77,7 +78,7 @@ func (op *tagValuesLookup) findTagValueIDsByExpr(expr stmt.Expr) {
 			tagValueIDs = roaring.New()
 		}
 		// save atomic tag filter result
-		op.executeCtx.TagFilterResult[expr.Rewrite()] = &flow.TagFilterResult{
+		op.executeCtx.TagFilterResult[tagFilterResultKey(expr)] = &flow.TagFilterResult{
 			TagKeyID:    tagKeyID,
 			TagValueIDs: tagValueIDs,
 		}
@@ -108,4 +109,26 @@ func (op *tagValuesLookup) getTagKeyID(tagKey string) (tag.KeyID, error) {
 // Identifier returns identifier value of tag value lookup operator.
 func (op *tagValuesLookup) Identifier() string {
 	return "Tag Value Lookup"
+}
+
+// tagFilterResultKey returns the key of an atomic tag filter in the tag filter result:
+// the kind of the filter and its quoted operands, the rewritten text of different filters can be same
+// (e.g. host in ('a,b') and host in ('a','b'), host='~b' and host=~'b').
+func tagFilterResultKey(expr stmt.Expr) string {
+	switch e := expr.(type) {
+	case *stmt.EqualsExpr:
+		return "equals:" + strconv.Quote(e.Key) + "=" + strconv.Quote(e.Value)
+	case *stmt.InExpr:
+		key := "in:" + strconv.Quote(e.Key) + "="
+		for _, value := range e.Values {
+			key += strconv.Quote(value) + ","
+		}
+		return key
+	case *stmt.LikeExpr:
+		return "like:" + strconv.Quote(e.Key) + "=" + strconv.Quote(e.Value)
+	case *stmt.RegexExpr:
+		return "regex:" + strconv.Quote(e.Key) + "=" + strconv.Quote(e.Regexp)
+	default:
+		return expr.Rewrite()
+	}
 }
